@@ -284,6 +284,21 @@ def main():
                                        dict(kind="concurrent-mismatch", failing_input=True, log=rout[-6000:], note="go test -race -run %s in /verif/harness" % rule["race_extra"])))
                 else:
                     raise Fail("race pass failed (exit %d):\n%s" % (rc3, rout[-4000:]))
+        fresh = None
+        if rule.get("fresh_tests"):
+            # entry points asked as the FIRST thing of a fresh process (package harness/first
+            # imports nothing but tree): one process per test
+            env3 = dict(GOENV, VERIF_SEED=str(seed), VERIF_TIER=tier)
+            sh(["go", "test", "-tags", "verif", "-c", "-o", os.path.join(WORK, "first.test"), "./first"], cwd=HARNESS, env=env3, timeout=1200)
+            failed = []
+            for name in rule["fresh_tests"]:
+                rc4, fout = sh([os.path.join(WORK, "first.test"), "-test.run", "^%s$" % name, "-test.count=1"], cwd=HARNESS, env=env3, timeout=600)
+                if rc4 != 0 or "ok" not in fout and "PASS" not in fout:
+                    failed.append((name, fout[-1500:]))
+            fresh = dict(tests=list(rule["fresh_tests"]), failed=[n for n, _ in failed])
+            for name, fout in failed[:5]:
+                violations.append(("first-use", "%s fails when it is the first use of the library in a fresh process: %s" % (name, fout.strip()[:400]),
+                                   dict(kind="first-use", failing_input=True, log=fout, note="cd /verif/harness && go test -tags verif -count=1 -run '^%s$' ./first" % name)))
         run_driver(pid)
         xc = None
         if not alt and pid in COQEVAL_PROPS:
@@ -345,6 +360,8 @@ def main():
     cov["checked_tree"] = repo_fingerprint(pid)
     if race_extra:
         cov["race_pass"] = race_extra
+    if fresh:
+        cov["fresh_process_pass"] = fresh
     if xc is not None:
         cov["coq_cross_check"] = dict(xc, what="sample of this run's cases evaluated inside Coq by vm_compute (coq/Eval.v) and compared with the extracted OCaml driver's answers")
     if chk is not None:
